@@ -402,7 +402,7 @@ def c11(tier, seed):
         groups = {}
         for rj in v2["rejects"]:
             e = rj["event"] or {}
-            cls = "solve-panic" if e.get("ev") == "Panic" else "solve:" + ("refined" if e.get("ir_enabled") else "plain") + (":failed" if not e.get("ok") else "")
+            cls = "solve-panic" if e.get("ev") == "Panic" else "regularised-factors" if e.get("ev") == "KKTReg" else "solve:" + ("refined" if e.get("ir_enabled") else "plain") + (":failed" if not e.get("ok") else "")
             groups.setdefault(cls, []).append(e)
         for cls, evs in groups.items():
             e = evs[0]
